@@ -639,6 +639,12 @@ class Exec:
                     return r
             if f.id == 'set' and not e.args and f.id not in st.env:
                 return SetV(z3.K(Val, BoolVal(False)))
+            if f.id in ('min', 'max') and f.id not in st.env and len(e.args) == 2 and not e.keywords:
+                a_, b_ = self.ev(e.args[0], st), self.ev(e.args[1], st)
+                if all(isinstance(x, (int, z3.ArithRef)) and not isinstance(x, bool) for x in (a_, b_)):
+                    a_, b_ = self.as_int(a_), self.as_int(b_)
+                    return If(a_ <= b_, a_, b_) if f.id == 'min' else If(a_ >= b_, a_, b_)
+                raise OutOfSubset(f'{f.id} of non-integers')
             if f.id == 'len' and len(e.args) == 1 and f.id not in st.env:
                 v = self.ev(e.args[0], st)
                 if isinstance(v, z3.SeqRef):
